@@ -39,7 +39,7 @@ pub fn fresh_reference(rng: &mut Rng, cfg: &PicCfg) -> Result<(Dec, Planes, Vec<
     for _ in 0..3 {
         let pic = gen_reference(rng, cfg);
         let bytes = pic.encode();
-        let mut dec = Dec::new(cfg.flavour.sorenson(), false);
+        let mut dec = Dec::new(cfg.flavour.sorenson(), cfg.flavour.sorenson() && rng.chance(1, 4));
         match dec.decode(&bytes) {
             Outcome::Ok => {}
             o => return Err(Fail { sig: format!("reference-decode/{}", o.short()), detail: format!("reference intra picture {}x{} ({}) did not decode: {}", cfg.w, cfg.h, cfg.flavour.name(), o.short()) }),
